@@ -1,6 +1,7 @@
 package props
 
 import (
+	"sync/atomic"
 	"fmt"
 	"math/rand"
 	"regexp"
@@ -218,6 +219,20 @@ func c12Case(r *core.Run, idx int, rng *rand.Rand) {
 	}
 	// now and then the storage hands out a certificate and a private key that do not belong together (read in the
 	// middle of a key rotation): whatever is answered must still verify under the published certificate
+	// a storage that answers "no record, no error" for unknown entities; and now and then the key storage fails for
+	// the first call of the request only (whatever a handler skips or retries then, the guards stay in force)
+	e.W.NilForUnknown = rng.Intn(2) == 0
+	if idx%11 == 7 {
+		kind := []string{sim.FaultError, sim.FaultTimeout, sim.FaultNilRecord}[rng.Intn(3)]
+		var nth atomic.Int64
+		e.W.Plan = func(tag, op string, occ int) string {
+			if op == "GetResponseSigningKey" && nth.Add(1) == 1 {
+				return kind
+			}
+			return ""
+		}
+		r.Count("queries_during_transient_key_fault", 1)
+	}
 	torn := idx%13 == 5
 	if torn {
 		e.W.RespKey = &key.CertificateAndKey{Certificate: e.W.RespKey.Certificate, Key: keys.Get("idp_meta").RSA}
